@@ -260,10 +260,55 @@ Definition opaque_sec_witness : keypkt :=
 Theorem fp_opaque_private_old_refuted :
   fingerprint (fun x => x) opaque_sec_witness <> fingerprint (fun x => x) (pubkey_pkt_old opaque_sec_witness).
 Proof. vm_compute. discriminate. Qed.
-(* still true of the repaired code: re-emission of such a private packet appends an S2K usage octet *)
-Theorem opaque_private_reemit_refuted :
-  key_body opaque_sec_witness <> [4] ++ be 4 1000 ++ [21] ++ [0; 9; 1; 255; 0; 0; 7; 99].
-Proof. vm_compute. discriminate. Qed.
+(* since repair c516614 such a private packet is written back as received: version, time, algorithm, the opaque octets,
+   whatever the (unused) secret-part fields of the object hold *)
+Theorem opaque_private_reemit sub c a d sp : 0 <= c < 4294967296 -> 0 <= a < 256 ->
+  key_body (opaque_sec sub c a d sp) = [4] ++ be 4 c ++ [a] ++ d.
+Proof.
+  intros Hc Ha. unfold key_body, opaque_sec, keymaterial_bytes. cbn [k_created k_alg k_mat k_sec pubmat_bytes is_opaque].
+  rewrite int_to_bytes_octet by assumption.
+  rewrite (int_to_bytes_fits c 4) by (change (256 ^ 4) with 4294967296; lia).
+  rewrite app_nil_r. reflexivity.
+Qed.
+(* the composition before that repair appended the secret tail (at least a usage octet): another body, one octet longer
+   than what was received, so the packet length and every later offset differ *)
+Theorem opaque_private_reemit_old_refuted :
+  key_body_old opaque_sec_witness <> [4] ++ be 4 1000 ++ [21] ++ [0; 9; 1; 255; 0; 0; 7; 99] /\
+  key_body_old opaque_sec_witness <> key_body opaque_sec_witness /\
+  length (key_body_old opaque_sec_witness) = S (length (key_body opaque_sec_witness)).
+Proof. repeat split; vm_compute; discriminate. Qed.
+(* the repair changed nothing where the material is not opaque *)
+Theorem key_body_old_same k : is_opaque (k_mat k) = false -> key_body_old k = key_body k.
+Proof. intros H. unfold key_body_old, key_body, keymaterial_bytes_old, keymaterial_bytes. rewrite H. reflexivity. Qed.
+(* export + import of a private packet of an unknown algorithm gives the packet back (before: a material one octet longer) *)
+Lemma opaque_sec_reparse sub c a d sp : 0 <= c < 4294967296 -> a = 0 \/ a = 21 ->
+  reparse (opaque_sec sub c a d sp) = opaque_sec sub c a d sp.
+Proof.
+  intros Hc Ha. unfold reparse.
+  assert (E : key_body_parse (key_body (opaque_sec sub c a d sp)) = Some (c, a, POpaque d, [])).
+  { rewrite opaque_private_reemit by (destruct Ha; subst; lia).
+    unfold key_body_parse. cbn [app]. change (4 =? 4) with true. cbv iota.
+    rewrite firstn_app_exact, skipn_app_exact by apply length_be.
+    unfold bytes_to_int. rewrite unbe_be by (change (256 ^ Z.of_nat 4) with 4294967296; lia).
+    cbn [app]. destruct Ha; subst a; reflexivity. }
+  rewrite E. reflexivity.
+Qed.
+(* every step but pubkey() leaves body and hashed octets of such a private packet as they are *)
+Theorem opaque_sec_step sub c a d sp o : 0 <= c < 4294967296 -> a = 0 \/ a = 21 -> o <> OpPubkey ->
+  exists sp', apply_op (opaque_sec sub c a d sp) o = Some (opaque_sec sub c a d sp') /\
+    key_body (opaque_sec sub c a d sp') = key_body (opaque_sec sub c a d sp) /\
+    fp_input (opaque_sec sub c a d sp') = fp_input (opaque_sec sub c a d sp).
+Proof.
+  intros Hc Ha Ho.
+  assert (B : forall s1 s2, key_body (opaque_sec sub c a d s1) = key_body (opaque_sec sub c a d s2) /\
+                            fp_input (opaque_sec sub c a d s1) = fp_input (opaque_sec sub c a d s2)) by (intros; split; reflexivity).
+  destruct o; cbn [apply_op]; try contradiction.
+  - eexists. split; [reflexivity|apply B].
+  - eexists. split; [reflexivity|apply B].
+  - eexists. split; [reflexivity|apply B].
+  - exists sp. split; [reflexivity|apply B].
+  - exists sp. rewrite opaque_sec_reparse by assumption. split; [reflexivity|apply B].
+Qed.
 (* the copy before the repair lost the opaque octets: another fingerprint, for public and private packets *)
 Theorem fp_opaque_copy_old_refuted :
   fingerprint (fun x => x) (copy_pkt_old opaque_witness) <> fingerprint (fun x => x) opaque_witness /\
